@@ -407,3 +407,81 @@ class PdsDecTheory(OffsetTheory):
                 return Z("bool", v.info["temporal"])     # dates and leap-second texts have no microsecond attribute
             raise Untranslatable("hasattr")
         return super().call(ex, fv, args, kwargs, node)
+
+
+class BasedIntTheory(ObjTheory):
+    """decode_non_decimal of the three decoder families: the match groups of the grammar's based-integer patterns are
+    symbolic texts; int(text, base=b) and int(text) are uninterpreted (their language: regex obligations based:*)."""
+    name = "T_based"
+    feasible_axioms = False
+    candidate_models = True
+
+    def make_self(self, ex, fv):
+        return ObjV("self", cls=fv.cls_name, info={"oid": "self"})
+
+    def initial_field(self, ex, recv, attr):
+        if recv.role == "self" and attr == "grammar":
+            return ObjV("grammar")
+        return None
+
+    def fresh_of_kind(self, kind, nm):
+        if kind == "text":
+            return Z("str", z3.Const("value_text", S))
+        return super().fresh_of_kind(kind, nm)
+
+    def global_name(self, ex, name):
+        if name in ("int",):
+            return FuncV(name)
+        return super().global_name(ex, name)
+
+    def getattr(self, ex, recv, attr):
+        if isinstance(recv, ObjV) and recv.role == "grammar" and attr.endswith("_re"):
+            return ObjV("regex", info={"name": attr})
+        if isinstance(recv, ObjV) and recv.role in ("regex", "match", "gd"):
+            return BoundM(recv, attr)
+        return super().getattr(ex, recv, attr)
+
+    def is_none(self, ex, a):
+        if isinstance(a, ObjV) and a.role == "match":
+            return z3.Not(a.info["ok"])
+        return super().is_none(ex, a)
+
+    def contains(self, ex, container, item):
+        if isinstance(container, ObjV) and container.role == "gd" and isinstance(item, Conc):
+            return z3.Const(f"{container.info['re']}_has_group_{item.v}", B)
+        return super().contains(ex, container, item)
+
+    def getitem(self, ex, recv, idx):
+        if isinstance(recv, ObjV) and recv.role == "gd" and isinstance(idx, Conc):
+            has = z3.Const(f"{recv.info['re']}_has_group_{idx.v}", B)
+            if ex.branch(has, f"group-{idx.v}"):
+                return Z("str", z3.Const(f"{recv.info['re']}_group_{idx.v}", S))
+            raise PyRaise(ExcV("KeyError"))
+        return super().getitem(ex, recv, idx)
+
+    def call(self, ex, fv, args, kwargs, node):
+        from .objtheory import sval
+        if isinstance(fv, FuncV) and fv.name == "int":
+            t = sval(args[0])
+            if t is None:
+                raise Untranslatable("int(non-text)")
+            if "base" in kwargs:
+                b = ex.as_int(kwargs["base"])
+                ok = z3.Function("int_accepts_in_base", S, I, B)(t, b)
+                if ex.branch(ok, "int(text, base)"):
+                    return Z("int", z3.Function("int_value_in_base", S, I, I)(t, b))
+                raise PyRaise(ExcV("ValueError"))
+            ok = z3.Function("int_accepts", S, B)(t)
+            if ex.branch(ok, "int(text)"):
+                return Z("int", z3.Function("int_value", S, I)(t))
+            raise PyRaise(ExcV("ValueError"))
+        return super().call(ex, fv, args, kwargs, node)
+
+    def call_method(self, ex, recv, name, args, kwargs):
+        from .objtheory import sval
+        if isinstance(recv, ObjV) and recv.role == "regex" and name == "fullmatch":
+            return ObjV("match", info={"re": recv.info["name"],
+                                       "ok": z3.Function("re_fullmatch", S, S, B)(z3.Const("pattern_" + recv.info["name"], S), sval(args[0]))})
+        if isinstance(recv, ObjV) and recv.role == "match" and name == "groupdict":
+            return ObjV("gd", info={"re": recv.info["re"]})
+        return super().call_method(ex, recv, name, args, kwargs)
